@@ -274,3 +274,119 @@ contract('Model.register_agent_factory', file=F, props=['C14'],
                                 # re-registering a type that has live agents would orphan them: excluded
                                 ids_of_type(C.self, C.agent_type)[0] == 0),
          ensures=register_post, modifies=['Model.agent_factories', 'Model.agent_type_map'])
+
+
+# ---------------------------------------------------------------------------------------------------
+# delete_agents / delete_agent
+# ---------------------------------------------------------------------------------------------------
+IDSET = TSet(INT)
+
+
+def _da(C):
+    """shorthands over the entry state"""
+    m0 = C.old.self
+    at0 = AT(m0.agents)
+    ty, idf = H(m0, 'Agent', 'agent_type'), H(m0, 'Agent', 'id')
+    return m0, at0, ty, idf, C.agent_ids, m0.agents.len
+
+
+def kept_is(lv, C, upto):
+    m0, at0, ty, idf, S, n = _da(C)
+    return And(lv.len == klen(at0, idf, S, upto),
+               FA('idx', lambda j: Implies(And(0 <= j, j < lv.len), lv.raw(j) == kat(at0, idf, S, j, upto))))
+
+
+def basic_wf(m, ags):
+    """clauses 1, 2, 4 of wf for an agent list `ags` (ListView) against model m"""
+    tm = m.agent_type_map
+    return And(FA('idx', lambda i: Implies(And(0 <= i, i < ags.len),
+                                           And(ags[i] != NULL, ags[i].id < m.next_agent_id, ags[i].id >= 0,
+                                               tm.has(ags[i].agent_type)))),
+               FA('idx', 'idx', lambda i, j: Implies(And(0 <= i, i < j, j < ags.len), ags[i].id < ags[j].id)))
+
+
+def typelist_of(lst, at, ty, idf, T, upto):
+    return And(lst.len == flen(at, ty, T, upto),
+               FA('idx', lambda j: Implies(And(0 <= j, j < lst.len), lst.raw(j) == fat(at, ty, idf, T, j, upto))))
+
+
+def da_inv0(C):
+    m0, at0, ty, idf, S, n = _da(C)
+    temp, types = C.v.temp_agents, C.v.agent_types
+    tat = AT(temp)
+    k = C.k
+    return And(
+        kept_is(temp, C, k),
+        basic_wf(m0, temp),
+        FA('idx', 'idx', lambda j, i: Implies(And(0 <= j, j < temp.len, k <= i, i < n), temp[j].id < m0.agents[i].id)),
+        # type filters of the kept list agree with those of the original for types that lost nobody
+        FA('str', lambda T: Implies(ndel(at0, ty, idf, S, T, k) == 0,
+                                    And(flen(tat, ty, T, temp.len) == flen(at0, ty, T, k),
+                                        FA('idx', lambda j: fat(tat, ty, idf, T, j, temp.len) == fat(at0, ty, idf, T, j, k))))),
+        FA('str', lambda T: Implies(ndel(at0, ty, idf, S, T, k) > 0, types.contains(T))),
+        FA('idx', lambda j: Implies(And(0 <= j, j < types.len), m0.agent_type_map.has(types.raw(j)))),
+    )
+
+
+def da_common(C):
+    """facts that hold from the assignment self.agents = temp_agents to the end"""
+    m1, m0 = C.self, C.old.self
+    _, at0, ty, idf, S, n = _da(C)
+    temp = C.v.temp_agents
+    return And(m1.agents.z == temp.z, m1.next_agent_id == m0.next_agent_id,
+               m1.agent_factories.z == m0.agent_factories.z,
+               kept_is(temp, C, n), basic_wf(m0, temp),
+               FA('str', lambda T: m1.agent_type_map.has(T) == m0.agent_type_map.has(T)),
+               FA('str', 'str', lambda T, U: Implies(And(m1.agent_type_map.has(T), m1.agent_type_map.has(U), T != U),
+                                                     m1.agent_type_map[T].oid != m1.agent_type_map[U].oid)),
+               FA('str', lambda T: Implies(ndel(at0, ty, idf, S, T, n) == 0,
+                                           And(flen(AT(temp), ty, T, temp.len) == flen(at0, ty, T, n),
+                                               FA('idx', lambda j: fat(AT(temp), ty, idf, T, j, temp.len) == fat(at0, ty, idf, T, j, n))))),
+               FA('str', lambda T: Implies(ndel(at0, ty, idf, S, T, n) > 0, C.v.agent_types.contains(T))),
+               FA('idx', lambda j: Implies(And(0 <= j, j < C.v.agent_types.len), m0.agent_type_map.has(C.v.agent_types.raw(j)))))
+
+
+def da_type_ok(C, U, k1, skip=None):
+    """per-type state of the map while the outer loop has processed agent_types[:k1]"""
+    m1, m0 = C.self, C.old.self
+    _, at0, ty, idf, S, n = _da(C)
+    temp, types = C.v.temp_agents, C.v.agent_types
+    tm1, tm0 = m1.agent_type_map, m0.agent_type_map
+    done = EX('idx', lambda j: And(0 <= j, j < k1, types.raw(j) == U))
+    return And(Implies(And(tm1.has(U), done), typelist_of(tm1[U], AT(temp), ty, idf, U, temp.len)),
+               Implies(Not(EX('idx', lambda j: And(0 <= j, j < k1, types.raw(j) == U))), tm1.raw(U) == tm0.raw(U)))
+
+
+def da_inv1(C):
+    return And(da_common(C), FA('str', lambda U: da_type_ok(C, U, C.k)))
+
+
+def da_inv2(C):
+    T = C.v.agent_type
+    m1 = C.self
+    _, at0, ty, idf, S, n = _da(C)
+    temp, types = C.v.temp_agents, C.v.agent_types
+    return And(da_common(C),
+               0 <= C.outer_k, C.outer_k < types.len, T == types.raw(C.outer_k),
+               FA('str', lambda U: Implies(U != T, da_type_ok(C, U, C.outer_k))),
+               m1.agent_type_map.has(T),
+               # (stated under a quantifier so that it is instantiated at the *term* the goal uses for the type)
+               FA('str', lambda U: Implies(U == T, typelist_of(m1.agent_type_map[U], AT(temp), ty, idf, U, C.k))))
+
+
+def delete_agents_post(C):
+    m1, m0 = C.self, C.old.self
+    return And(wf(m1), kept_is(m1.agents, C, m0.agents.len), m1.next_agent_id == m0.next_agent_id)
+
+
+contract('Model.delete_agents', file=F, props=['C14'], params=dict(self=M, agent_ids=IDSET),
+         locals=dict(temp_agents=TList(A), agent_types=TList(STR)),
+         requires=lambda C: wf(C.self), ensures=delete_agents_post,
+         loops={0: da_inv0, 1: da_inv1, 2: da_inv2},
+         modifies=['Model.agents', 'Model.agent_type_map'])
+
+contract('Model.delete_agent', file=F, props=['C14'], params=dict(self=M, agent_id=INT),
+         requires=lambda C: wf(C.self),
+         ensures=lambda C: And(wf(C.self), C.self.next_agent_id == C.old.self.next_agent_id,
+                               FA('idx', lambda i: Implies(And(0 <= i, i < C.self.agents.len), C.self.agents[i].id != C.agent_id))),
+         modifies=['Model.agents', 'Model.agent_type_map'])
